@@ -16,8 +16,8 @@ Definition opt_eqb {A} (eqb : A -> A -> bool) (a b : option A) : bool :=
 Definition entry_eqb (a b : string * qexpr) : bool := String.eqb (fst a) (fst b) && qexpr_eqb (snd a) (snd b).
 Definition stmt_eqb (a b : stmt) : bool :=
   match a, b with
-  | SUpdate t1 s1 w1, SUpdate t2 s2 w2 => String.eqb t1 t2 && list_eqb entry_eqb s1 s2 && opt_eqb qexpr_eqb w1 w2
-  | SDelete t1 w1, SDelete t2 w2 => String.eqb t1 t2 && opt_eqb qexpr_eqb w1 w2
+  | SUpdate t1 s1 w1, SUpdate t2 s2 w2 => list_eqb String.eqb t1 t2 && list_eqb entry_eqb s1 s2 && opt_eqb qexpr_eqb w1 w2
+  | SDelete t1 w1, SDelete t2 w2 => list_eqb String.eqb t1 t2 && opt_eqb qexpr_eqb w1 w2
   | _, _ => false
   end.
 
@@ -57,10 +57,10 @@ Qed.
 Definition entry_equiv (a b : string * qexpr) : bool :=
   String.eqb (fst a) (fst b) && expr_equiv (erase (snd a)) (erase (snd b)).
 Definition where_equiv (a b : qexpr) : bool := expr_equiv (erase a) (erase b).
-Definition stmt_equiv (name : string) (cs : list string) (a b : stmt) : bool :=
+Definition stmt_equiv (name : tabref) (cs : list string) (a b : stmt) : bool :=
   stmt_syntax_ok a && stmt_syntax_ok b
-  && String.eqb (stmt_target a) name && String.eqb (stmt_target b) name
-  && stmt_binds name cs a && stmt_binds name cs b
+  && names_table name (stmt_target a) && names_table name (stmt_target b)
+  && stmt_binds (bare name) cs a && stmt_binds (bare name) cs b
   && match a, b with
      | SUpdate _ s1 w1, SUpdate _ s2 w2 => list_eqb entry_equiv s1 s2 && opt_eqb where_equiv w1 w2
      | SDelete _ w1, SDelete _ w2 => opt_eqb where_equiv w1 w2
@@ -126,7 +126,9 @@ Record execobs := mkExec {
 
 Record case := mkCase {
   k_st : tstate;
-  k_name : string;             (* the table that exists in the database *)
+  k_name : tabref;             (* the table the object was opened on (connection catalog, default schema, schema, name) *)
+  k_shadow : option ((string * string) * list row * list row);
+                               (* another table (same name, default schema): its rows before / after execute() *)
   k_cols : list string;
   k_call : call;
   k_rows0 : list row;          (* table before update()/delete() is called *)
@@ -166,14 +168,22 @@ Definition check (c : cfg) (k : case) : string :=
                | Some e, inl e' => err_eqb e e'
                | _, _ => false
                end in
-  let exec_m := match m with inr s => Some (exec (k_name k) cs (k_pre k) s) | inl _ => None end in
+  let nm := k_name k in
+  let addr := (r_schema nm, r_table nm) in
+  let d := (addr, k_pre k) :: match k_shadow k with Some (a, pre, _) => [(a, pre)] | None => [] end in
+  let shadow_same := match k_shadow k with Some (_, pre, post) => list_eqb row_eqb pre post | None => true end in
+  let exec_m := match m with inr s => Some (exec_db (r_cat nm) (r_default nm) cs d s) | inl _ => None end in
   let ex := match k_exec k, exec_m with
             | None, None => true
             | Some x, Some (inl e) =>
-                opt_eqb err_eqb (x_err x) (Some e) && list_eqb row_eqb (x_rows x) (k_pre k)
+                opt_eqb err_eqb (x_err x) (Some e) && list_eqb row_eqb (x_rows x) (k_pre k) && shadow_same
                 && Nat.eqb (x_sent x) (execute_session_calls c)
-            | Some x, Some (inr (rs, n)) =>
-                opt_eqb err_eqb (x_err x) None && list_eqb row_eqb (x_rows x) rs
+            | Some x, Some (inr (d', n)) =>
+                opt_eqb err_eqb (x_err x) None && opt_eqb (list_eqb row_eqb) (Some (x_rows x)) (db_get addr d')
+                && match k_shadow k with
+                   | Some (a, _, post) => opt_eqb (list_eqb row_eqb) (Some post) (db_get a d')
+                   | None => true
+                   end
                 && opt_eqb Nat.eqb (x_count x) (Some n) && Nat.eqb (x_sent x) (execute_session_calls c)
             | _, _ => false
             end in
@@ -182,7 +192,7 @@ Definition check (c : cfg) (k : case) : string :=
   let spec := match k_exec k with
               | Some x => opt_eqb err_eqb (x_err x) None && bag_eqb (x_rows x) sp_rows
                           && opt_eqb Nat.eqb (x_count x) (Some sp_n)
-                          && list_eqb row_eqb (k_rows0 k) (k_rows1 k)
+                          && list_eqb row_eqb (k_rows0 k) (k_rows1 k) && shadow_same
               | None => false
               end in
   let ms := match run c st (k_name k) cs (k_pre k) (k_call k) with
